@@ -11,6 +11,16 @@ CLAIMED = {
          "parse(build(x)) == x on a deterministic sweep of all singled-out message lengths (0..100000 bytes) and on generated keys, nonces, Unicode messages, footers and assertions, for every local version at the core, generic and batteries-included layers.", PV_NOTE),
  "C02": ("pv", "round-trip property (inverse oracle) over generated inputs and generated key pairs with proptest, 4 versions x 3 layers",
          "verify(sign(m)) == m with a fresh Ed25519/P-384 key pair per case (RSA from a pool of 7) over the same message/footer/assertion space as C01, at all three layers.", PV_NOTE + "; RSA keys from a fixed pool"),
+ "C03": ("pv", "mutation of authentic tokens: exhaustive single-edit neighbourhoods (bit flips, character substitutions, prefixes, insert/delete, non-canonical base64) + proptest-generated multi-edits and splices, with an accept/reject oracle on the error class",
+         "For fixed tokens per protocol x layer every single-bit flip, every single-character substitution (70 symbols), every prefix, byte insertion/deletion at every offset and every non-canonical base64 variant is enumerated; random edits, multi-edit scripts and 8 splice kinds are generated. Rejections must be format/authentication errors with 0 validator calls; acceptance only in the two tolerated classes.", PV_NOTE),
+ "C04": ("pv", "metamorphic key substitution: exhaustive single-bit neighbours of the key + generated other keys (proptest), control parse under the right key",
+         "parse_{K'}(build_K(m)) must fail for all single-bit neighbours, all-zero/all-one, negated/degenerate points, other generated keys and other RSA pool keys, at all three layers; the control under K must succeed in the same case.", PV_NOTE),
+ "C05": ("pv", "metamorphic footer relations (related footers built by construction, token-side footer-segment edits) with an iff-oracle; proptest",
+         "accept iff norm(F') == norm(F) checked in both directions, footer-segment edits rejected under both the original and the edited value, produced footer segment equals base64url(F) iff F non-empty; 8 protocols x 3 layers.", PV_NOTE),
+ "C06": ("pv", "metamorphic assertion relations with an iff-oracle, not-stored and length-independence checks, footer/assertion re-split; proptest",
+         "accept iff norm(A') == norm(A); token length independent of A; A (raw, base64url, hex) absent from token text, decoded payload and footer; same-concatenation/different-split rejected; v3/v4 x local/public x 3 layers.", PV_NOTE),
+ "C07": ("pv", "exhaustive enumeration of the 56 ordered protocol pairs x 4 presentations x 3 layers + proptest-generated tokens; oracle: Y never accepts",
+         "Every ordered pair (X,Y) is covered with verbatim, relabelled, relabelled+padded and relabelled+re-laid-out presentations, shared key bytes wherever both protocols take the same bytes; all 3 layers of Y must return Err.", PV_NOTE),
  "C08": ("pv", "differential testing against an independent executable transcription of the specification (specref) pinned to the 45 official vectors; generated inputs with proptest",
          "Byte-for-byte comparison of local tokens with the reference, cross-verification of public tokens in both directions, library decryption of reference tokens with arbitrary wire nonces, footer-segment structure; the reference re-derives every official vector before each run.",
          PV_NOTE + "; RSA-PSS (ring) and Poly1305 primitives are shared with the library"),
